@@ -290,6 +290,9 @@ def has_pairwise_eq(v, depth=0):
             if a[0][1] in ("eq", "ne") and len(a[0]) > 3 and exact_origins(a[0][2]) == {"msg.CreatePool.asset_denoms[*]"} \
                     and exact_origins(a[0][3]) == {"msg.CreatePool.asset_denoms[*]"}:
                 return True
+            if a[0][1] == "contains" and len(a[0]) > 3 and all(exact_origins(x) and exact_origins(x) <= {"msg.CreatePool.asset_denoms[*]", "msg.CreatePool.asset_denoms"}
+                                                                for x in a[0][2:4]):
+                return True       # `rest_of_the_list.contains(element)`
             for x in a[0][2:]:
                 if hasattr(x, "atoms") and has_pairwise_eq(x, depth + 1):
                     return True
@@ -306,7 +309,9 @@ def duplicate_guard(W, chk):
     A = W.run("pool_manager", "execute", ("CreatePool",))
     pair = any(has_pairwise_eq(e.vals[0]) for e in A.events if e.kind in ("switch", "invoke") and e.vals)
     cands = [PredFalse("any(duplicate denom)", lambda pn, pa: pn == "any" and origin_match(pa[0], DEN, require_all=False)),
-             PredTrue("any(duplicate denom)'", lambda pn, pa: pn == "any" and origin_match(pa[0], DEN, require_all=False))]
+             PredTrue("any(duplicate denom)'", lambda pn, pa: pn == "any" and origin_match(pa[0], DEN, require_all=False)),
+             PredFalse("rest.contains(denom)", lambda pn, pa: pn == "contains" and len(pa) > 1 and origin_match(pa[0], DEN, require_all=False) and origin_match(pa[1], DEN, require_all=False)),
+             PredTrue("rest.contains(denom)'", lambda pn, pa: pn == "contains" and len(pa) > 1 and origin_match(pa[0], DEN, require_all=False) and origin_match(pa[1], DEN, require_all=False))]
     for e in A.calls_id(r"^pool_manager::"):
         rid = e.extra.get("rid") or ""
         sub = [x for x in A.events if x.kind in ("switch", "invoke") and x.vals and any(c == rid for c in x.chain())]
@@ -314,7 +319,7 @@ def duplicate_guard(W, chk):
             cands += [CallTrue(re.escape(rid) + "$", "helper says duplicate", True), CallTrue(re.escape(rid) + "$", "helper says distinct", False)]
     good = None
     for c in cands:
-        pol = CutPolicy([c])
+        pol = CutPolicy([c], nonempty=r"^msg\.CreatePool\.asset_denoms")     # the count >= 2 guard is a separate obligation
         B = W.run("pool_manager", "execute", ("CreatePool",), pol)
         if c.name in pol.hits and not pool_writes(B):
             good = c.name
